@@ -78,9 +78,17 @@ let small_int_of_n (n : BinNums.coq_N) : int =       (* -1 if it does not fit 40
     | BinNums.Coq_xI q -> let r = go q (depth + 1) in if r < 0 then -1 else 2 * r + 1 in
   match n with BinNums.N0 -> 0 | BinNums.Npos p -> go p 0
 
+(* The model is run on corrupt counts, too (e.g. 40 million declared section headers); the tie
+   gives up on a case ("P ?") after this many byte reads instead of waiting for minutes. *)
+exception Budget
+let read_budget = ref 0
+let budget_per_case = 2_000_000
+
 let file_of_bytes (b : Bytes.t) : BinNums.coq_N -> BinNums.coq_N =
   let len = Bytes.length b in
   fun (n : BinNums.coq_N) ->
+    decr read_budget;
+    if !read_budget < 0 then raise Budget;
     let i = small_int_of_n n in
     if i >= 0 && i < len then byte_table.(Char.code (Bytes.get b i)) else BinNums.N0
 
@@ -198,7 +206,9 @@ let predict_file (specs : string list) : string =
   match specs with
   | [spec] ->
       let b = build_spec spec in
-      predict_open (file_of_bytes b) (Bytes.length b)
+      read_budget := budget_per_case;
+      (try predict_open (file_of_bytes b) (Bytes.length b)
+       with Budget -> "P ? model-budget-exceeded" | Stack_overflow -> "P ? model-stack-exhausted")
   | _ -> "P ?"
 
 (* ---- white-box cases on the size logic (no file needed):
